@@ -1,18 +1,19 @@
 """Translator plugin for C19: regenerates Gen/SessionsGen.v from InMemorySessionManager.cleanup_expired
-(server/session/memory.py).
+(server/session/memory.py) by SYMBOLIC EXECUTION of a small Python subset.
 
-The method must have exactly this skeleton (docstring and comments aside), otherwise the translation fails closed:
-    now = time.time()
-    expired = [sid for sid, session in self.sessions.items() if <COND>]
-    for sid in expired:
-        del self.sessions[sid]
-    return len(expired)
-<COND> is translated by the grammar
-    cond ::= cond and cond | cond or cond | not cond | arith (< | <= | > | >= | == | !=) arith
-    arith ::= arith (+|-) arith | now | session.last_activity | session.created_at | max_age | integer literal
-into `expired_src (now last created max_age : Z) : bool`.  Model/Sessions.v uses THIS function as its expiry test; Proofs/Sessions.v
-proves it equal to the specification's `now - last > max_age` (re-proved on every run), so a changed comparison, a changed
-operand or a wrapped conversion (int(...), round(...)) breaks an obligation.
+cleanup_expired (and every method of the class it calls, inlined) is executed over symbolic values: the clock value read by
+time.time() (exactly ONE read, outside any loop), max_age, integer literals, + and -, comparisons and and/or/not over them, the
+fields session.last_activity / session.created_at of the session a scan is looking at, and "the ids of the stored sessions that
+satisfy <COND>" - the value of
+    [sid for sid, session in self.sessions.items() if <COND>]            or of the accumulator after
+    acc = [];  for sid, session in self.sessions.items():  if <COND>: acc.append(sid)
+The method must then delete exactly those ids (for sid in <them>: del self.sessions[sid], or .pop(sid)) and return their
+number (len).
+<COND> becomes `expired_src (now last created max_age : Z) : bool`.  Model/Sessions.v uses THIS function as its expiry test;
+Proofs/Sessions.v proves it equal to the specification's `now - last > max_age` (re-proved on every run), so a changed
+comparison, a changed operand or a wrapped conversion (int(...), round(...)) breaks an obligation, while extracting the test or
+the scan into helper methods, renaming variables or writing the scan as a loop gives the same function.  Anything outside the
+subset raises TranslateError (fail-closed, the Gen file is removed).
 """
 from __future__ import annotations
 
@@ -22,36 +23,217 @@ import translate as T
 
 PATH = "server/session/memory.py"
 CMP = {ast.Lt: "<?", ast.LtE: "<=?", ast.Gt: ">?", ast.GtE: ">=?"}
+SELF, SESSIONS, ITEMS, SID, SESSION, TIME = ("self",), ("sessions",), ("items",), ("sid",), ("session",), ("time",)
+MAX_DEPTH = 5
 
 
-def _arith(n):
-    if isinstance(n, ast.BinOp) and isinstance(n.op, (ast.Add, ast.Sub)):
-        return f"({_arith(n.left)} {'+' if isinstance(n.op, ast.Add) else '-'} {_arith(n.right)})"
-    if isinstance(n, ast.Name) and n.id in ("now", "max_age"):
-        return n.id
-    if isinstance(n, ast.Attribute) and isinstance(n.value, ast.Name) and n.value.id == "session" \
-            and n.attr in ("last_activity", "created_at"):
-        return "last" if n.attr == "last_activity" else "created"
-    if isinstance(n, ast.Constant) and isinstance(n.value, int) and not isinstance(n.value, bool):
-        return T.zlit(n.value)
-    raise T.TranslateError(f"cleanup_expired: unsupported arithmetic {type(n).__name__}", n)
+def is_num(v):
+    return v[0] == "num"
 
 
-def _cond(n):
-    if isinstance(n, ast.BoolOp):
-        return "(" + (" && " if isinstance(n.op, ast.And) else " || ").join(_cond(v) for v in n.values) + ")"
-    if isinstance(n, ast.UnaryOp) and isinstance(n.op, ast.Not):
-        return f"(negb {_cond(n.operand)})"
-    if isinstance(n, ast.Compare) and len(n.ops) == 1:
-        a, b = _arith(n.left), _arith(n.comparators[0])
-        op = n.ops[0]
-        if type(op) in CMP:
-            return f"({a} {CMP[type(op)]} {b})"
-        if isinstance(op, ast.Eq):
-            return f"({a} =? {b})"
-        if isinstance(op, ast.NotEq):
-            return f"(negb ({a} =? {b}))"
-    raise T.TranslateError(f"cleanup_expired: unsupported condition {type(n).__name__}", n)
+class Sym:
+    def __init__(self, cls):
+        self.methods = {n.name: n for n in cls.body if isinstance(n, (ast.FunctionDef, ast.AsyncFunctionDef))}
+        self.cls = cls
+        self.clock_reads = 0
+        self.deleted = None          # condition text of the ids deleted
+        self.in_scan = False
+
+    # ------------------------------------------------------------------ expressions
+    def ev(self, n, env, depth):
+        if isinstance(n, ast.Constant):
+            if isinstance(n.value, int) and not isinstance(n.value, bool):
+                return ("num", T.zlit(n.value))
+            raise T.TranslateError("cleanup_expired: unsupported constant", n)
+        if isinstance(n, ast.Name):
+            if n.id in env:
+                return env[n.id]
+            if n.id == "time":
+                return TIME
+            raise T.TranslateError(f"cleanup_expired: unknown name {n.id}", n)
+        if isinstance(n, ast.Attribute):
+            b = self.ev(n.value, env, depth)
+            if b == SELF and n.attr == "sessions":
+                return SESSIONS
+            if b == SESSION and n.attr in ("last_activity", "created_at"):
+                return ("num", "last" if n.attr == "last_activity" else "created")
+            if b == SELF and n.attr in self.methods:
+                return ("method", n.attr, True)
+            if b == ("class",) and n.attr in self.methods:
+                return ("method", n.attr, False)
+            if b == TIME and n.attr == "time":
+                return ("clock",)
+            raise T.TranslateError(f"cleanup_expired: unsupported attribute .{n.attr}", n)
+        if isinstance(n, ast.BinOp) and isinstance(n.op, (ast.Add, ast.Sub)):
+            a, b = self.ev(n.left, env, depth), self.ev(n.right, env, depth)
+            if is_num(a) and is_num(b):
+                return ("num", f"({a[1]} {'+' if isinstance(n.op, ast.Add) else '-'} {b[1]})")
+            raise T.TranslateError("cleanup_expired: arithmetic on something that is not a number", n)
+        if isinstance(n, ast.BoolOp):
+            vs = [self.ev(v, env, depth) for v in n.values]
+            if all(v[0] == "bool" for v in vs):
+                return ("bool", "(" + (" && " if isinstance(n.op, ast.And) else " || ").join(v[1] for v in vs) + ")")
+            raise T.TranslateError("cleanup_expired: and/or over something that is not a comparison", n)
+        if isinstance(n, ast.UnaryOp) and isinstance(n.op, ast.Not):
+            v = self.ev(n.operand, env, depth)
+            if v[0] == "bool":
+                return ("bool", f"(negb {v[1]})")
+            raise T.TranslateError("cleanup_expired: `not` of something that is not a comparison", n)
+        if isinstance(n, ast.Compare) and len(n.ops) == 1:
+            a, b = self.ev(n.left, env, depth), self.ev(n.comparators[0], env, depth)
+            op = n.ops[0]
+            if is_num(a) and is_num(b):
+                if type(op) in CMP:
+                    return ("bool", f"({a[1]} {CMP[type(op)]} {b[1]})")
+                if isinstance(op, ast.Eq):
+                    return ("bool", f"({a[1]} =? {b[1]})")
+                if isinstance(op, ast.NotEq):
+                    return ("bool", f"(negb ({a[1]} =? {b[1]}))")
+            raise T.TranslateError("cleanup_expired: unsupported comparison", n)
+        if isinstance(n, ast.List) and not n.elts:
+            return ("acc",)
+        if isinstance(n, ast.ListComp):
+            return self.comprehension(n, env, depth)
+        if isinstance(n, ast.Call):
+            return self.call(n, env, depth)
+        raise T.TranslateError(f"cleanup_expired: unsupported expression {type(n).__name__}", n)
+
+    def comprehension(self, n, env, depth):
+        if len(n.generators) != 1 or n.generators[0].is_async or len(n.generators[0].ifs) != 1:
+            raise T.TranslateError("cleanup_expired: unexpected comprehension", n)
+        g = n.generators[0]
+        inner = self.bind_scan(g.target, g.iter, env, depth, n)
+        was, self.in_scan = self.in_scan, True
+        cond = self.ev(g.ifs[0], inner, depth)
+        elt = self.ev(n.elt, inner, depth)
+        self.in_scan = was
+        if cond[0] != "bool" or elt != SID:
+            raise T.TranslateError("cleanup_expired: the comprehension does not collect the ids that satisfy a comparison", n)
+        return ("ids", cond[1])
+
+    def bind_scan(self, target, it, env, depth, node):
+        if self.in_scan:
+            raise T.TranslateError("cleanup_expired: nested scan", node)
+        if self.ev(it, env, depth) != ITEMS:
+            raise T.TranslateError("cleanup_expired: the scan is not over self.sessions.items()", node)
+        if not (isinstance(target, ast.Tuple) and len(target.elts) == 2 and all(isinstance(e, ast.Name) for e in target.elts)):
+            raise T.TranslateError("cleanup_expired: the scan does not unpack (id, session)", node)
+        inner = dict(env)
+        inner[target.elts[0].id] = SID
+        inner[target.elts[1].id] = SESSION
+        return inner
+
+    def call(self, n, env, depth):
+        if any(isinstance(a, ast.Starred) for a in n.args) or any(k.arg is None for k in n.keywords):
+            raise T.TranslateError("cleanup_expired: star-arguments", n)
+        if isinstance(n.func, ast.Attribute) and n.func.attr == "items" and not n.args and not n.keywords \
+                and self.ev(n.func.value, env, depth) == SESSIONS:
+            return ITEMS
+        f = self.ev(n.func, env, depth) if not (isinstance(n.func, ast.Name) and n.func.id in ("len",)) else ("len",)
+        if f == ("clock",):
+            if n.args or n.keywords:
+                raise T.TranslateError("cleanup_expired: time.time() with arguments", n)
+            if self.in_scan:
+                raise T.TranslateError("cleanup_expired: the clock is read inside the scan (once per session)", n)
+            self.clock_reads += 1
+            return ("num", "now")
+        if f == ("len",) and len(n.args) == 1 and not n.keywords:
+            v = self.ev(n.args[0], env, depth)
+            if v[0] == "ids":
+                return ("count", v[1])
+            raise T.TranslateError("cleanup_expired: len() of something that is not the collected ids", n)
+        if f[0] == "method":
+            fn = self.methods[f[1]]
+            if depth >= MAX_DEPTH:
+                raise T.TranslateError("cleanup_expired: helper calls nested too deeply", n)
+            static = any(isinstance(d, ast.Name) and d.id == "staticmethod" for d in fn.decorator_list)
+            if [d for d in fn.decorator_list if not (isinstance(d, ast.Name) and d.id == "staticmethod")] or fn.args.vararg \
+                    or fn.args.kwarg or fn.args.posonlyargs or isinstance(fn, ast.AsyncFunctionDef):
+                raise T.TranslateError(f"helper {fn.name}: outside the subset", fn)
+            names = [a.arg for a in fn.args.args]
+            sub = {}
+            if not static:
+                sub[names[0]] = SELF
+                names = names[1:]
+            args = [self.ev(a, env, depth) for a in n.args]
+            kws = {k.arg: self.ev(k.value, env, depth) for k in n.keywords}
+            defaults = fn.args.defaults
+            for i, nm in enumerate(names):
+                if i < len(args):
+                    sub[nm] = args[i]
+                elif nm in kws:
+                    sub[nm] = kws[nm]
+                else:
+                    j = i - (len(names) - len(defaults))
+                    if j < 0:
+                        raise T.TranslateError(f"helper {fn.name}: missing argument {nm}", n)
+                    sub[nm] = self.ev(defaults[j], {}, depth + 1)
+            r = self.block(fn.body, sub, depth + 1)
+            if r is None:
+                raise T.TranslateError(f"helper {fn.name}: does not return a value the translator can follow", fn)
+            return r
+        raise T.TranslateError("cleanup_expired: call of code the translator cannot follow", n)
+
+    # ------------------------------------------------------------------ statements
+    def block(self, stmts, env, depth):
+        """Straight-line execution; returns the returned value or None."""
+        env = dict(env)
+        for st in stmts:
+            if T.is_docstring(st) or isinstance(st, ast.Pass) or T.is_log_call(st):
+                continue
+            if isinstance(st, ast.AnnAssign):
+                if st.value is None:
+                    continue
+                st = ast.Assign(targets=[st.target], value=st.value, lineno=st.lineno)
+            if isinstance(st, ast.Assign):
+                if len(st.targets) != 1 or not isinstance(st.targets[0], ast.Name):
+                    raise T.TranslateError("cleanup_expired: assignment to something that is not a plain name", st)
+                env[st.targets[0].id] = self.ev(st.value, env, depth)
+                continue
+            if isinstance(st, ast.Return):
+                return self.ev(st.value, env, depth) if st.value is not None else None
+            if isinstance(st, ast.For) and not st.orelse:
+                if isinstance(st.target, ast.Tuple):
+                    # the scan written as a loop: for sid, session in self.sessions.items(): if COND: acc.append(sid)
+                    inner = self.bind_scan(st.target, st.iter, env, depth, st)
+                    body = [b for b in st.body if not (T.is_docstring(b) or isinstance(b, ast.Pass) or T.is_log_call(b))]
+                    if len(body) != 1 or not isinstance(body[0], ast.If) or body[0].orelse:
+                        raise T.TranslateError("cleanup_expired: the scan loop is not a single `if <COND>: acc.append(id)`", st)
+                    was, self.in_scan = self.in_scan, True
+                    cond = self.ev(body[0].test, inner, depth)
+                    self.in_scan = was
+                    ib = [b for b in body[0].body if not (T.is_docstring(b) or isinstance(b, ast.Pass) or T.is_log_call(b))]
+                    ok = (len(ib) == 1 and isinstance(ib[0], ast.Expr) and isinstance(ib[0].value, ast.Call)
+                          and isinstance(ib[0].value.func, ast.Attribute) and ib[0].value.func.attr == "append"
+                          and isinstance(ib[0].value.func.value, ast.Name) and len(ib[0].value.args) == 1
+                          and not ib[0].value.keywords and self.ev(ib[0].value.args[0], inner, depth) == SID)
+                    if not ok or cond[0] != "bool":
+                        raise T.TranslateError("cleanup_expired: the scan loop does not append the id under a comparison", st)
+                    acc = ib[0].value.func.value.id
+                    if env.get(acc) != ("acc",):
+                        raise T.TranslateError("cleanup_expired: the scan loop appends to something that is not a fresh empty list", st)
+                    env[acc] = ("ids", cond[1])
+                    continue
+                # the deletion: for sid in <ids>: del self.sessions[sid]
+                src = self.ev(st.iter, env, depth)
+                want = ast.dump(ast.parse("del self.sessions[X]").body[0]).replace("'X'", repr(st.target.id) if isinstance(st.target, ast.Name) else "?")
+                body = [b for b in st.body if not (T.is_docstring(b) or isinstance(b, ast.Pass) or T.is_log_call(b))]
+                is_pop = False
+                if len(body) == 1 and isinstance(body[0], ast.Expr) and isinstance(body[0].value, ast.Call) \
+                        and isinstance(st.target, ast.Name):
+                    c = body[0].value
+                    is_pop = (isinstance(c.func, ast.Attribute) and c.func.attr == "pop" and not c.keywords
+                              and len(c.args) in (1, 2) and isinstance(c.args[0], ast.Name) and c.args[0].id == st.target.id
+                              and self.ev(c.func.value, env, depth) == SESSIONS
+                              and (len(c.args) == 1 or isinstance(c.args[1], ast.Constant)))
+                if src[0] != "ids" or len(body) != 1 or not (ast.dump(body[0]) == want or is_pop) or env.get("self") != SELF:
+                    raise T.TranslateError("cleanup_expired: deletion loop is not `for id in <collected ids>: del self.sessions[id]`", st)
+                if self.deleted is not None:
+                    raise T.TranslateError("cleanup_expired: two deletion loops", st)
+                self.deleted = src[1]
+                continue
+            raise T.TranslateError(f"cleanup_expired: unsupported statement {type(st).__name__}", st)
+        return None
 
 
 def gen_sessions() -> str:
@@ -65,31 +247,19 @@ def gen_sessions() -> str:
     fn = fns[0]
     if [a.arg for a in fn.args.args] != ["self", "max_age"] or fn.decorator_list:
         raise T.TranslateError("cleanup_expired: unexpected signature", fn)
-    body = [s for s in fn.body if not (isinstance(s, ast.Expr) and isinstance(s.value, ast.Constant) and isinstance(s.value.value, str))]
-    if len(body) != 4:
-        raise T.TranslateError(f"cleanup_expired: expected 4 statements, found {len(body)}", fn)
-    s0, s1, s2, s3 = body
-    if ast.dump(s0) != ast.dump(ast.parse("now = time.time()").body[0]):
-        raise T.TranslateError("cleanup_expired: first statement is not `now = time.time()`", s0)
-    if not (isinstance(s1, ast.Assign) and len(s1.targets) == 1 and isinstance(s1.targets[0], ast.Name)
-            and s1.targets[0].id == "expired" and isinstance(s1.value, ast.ListComp)):
-        raise T.TranslateError("cleanup_expired: second statement is not `expired = [...]`", s1)
-    lc = s1.value
-    want = ast.parse("[sid for sid, session in self.sessions.items() if True]").body[0].value
-    if ast.dump(lc.elt) != ast.dump(want.elt) or len(lc.generators) != 1:
-        raise T.TranslateError("cleanup_expired: unexpected comprehension", lc)
-    g, gw = lc.generators[0], want.generators[0]
-    if ast.dump(g.target) != ast.dump(gw.target) or ast.dump(g.iter) != ast.dump(gw.iter) or g.is_async or len(g.ifs) != 1:
-        raise T.TranslateError("cleanup_expired: unexpected comprehension source / filter", lc)
-    if ast.dump(s2) != ast.dump(ast.parse("for sid in expired:\n    del self.sessions[sid]").body[0]):
-        raise T.TranslateError("cleanup_expired: deletion loop differs", s2)
-    if ast.dump(s3) != ast.dump(ast.parse("return len(expired)").body[0]):
-        raise T.TranslateError("cleanup_expired: return differs", s3)
-    cond = _cond(g.ifs[0])
+    sym = Sym(classes[0])
+    env = {"self": SELF, "max_age": ("num", "max_age"), classes[0].name: ("class",)}
+    ret = sym.block(fn.body, env, 0)
+    if sym.deleted is None:
+        raise T.TranslateError("cleanup_expired: nothing is deleted", fn)
+    if ret is None or ret[0] != "count" or ret[1] != sym.deleted:
+        raise T.TranslateError("cleanup_expired: the value returned is not the number of the ids that were deleted", fn)
+    if sym.clock_reads != 1 and " now" in (" " + sym.deleted.replace("(", " ").replace(")", " ")):
+        raise T.TranslateError(f"cleanup_expired: the clock is read {sym.clock_reads} times", fn)
     return ("(* GENERATED by harness/translate_c19.py from src/chuk_mcp/" + PATH + " (cleanup_expired) -- do not edit *)\n"
             "From Coq Require Import ZArith Bool.\nOpen Scope Z_scope.\n\n"
-            "(** the filter of the list comprehension in cleanup_expired *)\n"
-            f"Definition expired_src (now last created max_age : Z) : bool :=\n  {cond}.\n")
+            "(** the test deciding which sessions cleanup_expired removes *)\n"
+            f"Definition expired_src (now last created max_age : Z) : bool :=\n  {sym.deleted}.\n")
 
 
 GEN_FILES = {"SessionsGen.v": gen_sessions}
